@@ -21,20 +21,20 @@ import (
 type opClass uint8
 
 const (
-	cNone  opClass = iota // no operand effects (RET, NOP, VZEROUPPER, fences, pseudo-ops)
-	cMove                 // reads every operand but the last, writes the last (destination is not read)
-	cRMW                  // reads every operand, writes the last
-	cRead                 // reads every operand, writes nothing (CMP, TEST, BT, PREFETCH)
-	cMul1                 // one-operand MUL/IMUL/DIV/IDIV: implicit AX, DX
-	cXchg                 // reads and writes every operand
-	cPush                 // reads operand, SP
-	cPop                  // writes operand, SP
-	cMulx                 // MULXQ src, lo, hi: reads src and DX, writes lo and hi
-	cJcc                  // conditional jump
-	cJmp                  // unconditional jump
-	cCall                 // CALL
-	cRet                  // RET
-	cPrefix               // LOCK / REP...: stands in front of the next instruction
+	cNone   opClass = iota // no operand effects (RET, NOP, VZEROUPPER, fences, pseudo-ops)
+	cMove                  // reads every operand but the last, writes the last (destination is not read)
+	cRMW                   // reads every operand, writes the last
+	cRead                  // reads every operand, writes nothing (CMP, TEST, BT, PREFETCH)
+	cMul1                  // one-operand MUL/IMUL/DIV/IDIV: implicit AX, DX
+	cXchg                  // reads and writes every operand
+	cPush                  // reads operand, SP
+	cPop                   // writes operand, SP
+	cMulx                  // MULXQ src, lo, hi: reads src and DX, writes lo and hi
+	cJcc                   // conditional jump
+	cJmp                   // unconditional jump
+	cCall                  // CALL
+	cRet                   // RET
+	cPrefix                // LOCK / REP...: stands in front of the next instruction
 )
 
 type opInfo struct {
@@ -97,7 +97,7 @@ var fixedOps = map[string]opInfo{
 	"PCALIGN": {class: cNone}, "FUNCDATA": {class: cNone}, "PCDATA": {class: cNone},
 	"NO_LOCAL_POINTERS": {class: cNone}, "GO_ARGS": {class: cNone}, "GO_RESULTS_INITIALIZED": {class: cNone},
 	"EMMS": {class: cNone},
-	"CLC": {class: cNone, setsFlags: true}, "STC": {class: cNone, setsFlags: true}, "CMC": {class: cNone, setsFlags: true, readsFlags: true},
+	"CLC":  {class: cNone, setsFlags: true}, "STC": {class: cNone, setsFlags: true}, "CMC": {class: cNone, setsFlags: true, readsFlags: true},
 	"CLD": {class: cNone}, "STD": {class: cNone, unmodelled: "changes the direction flag"},
 	"RET":  {class: cRet},
 	"JMP":  {class: cJmp},
@@ -113,11 +113,11 @@ var fixedOps = map[string]opInfo{
 	"RDRANDQ": {class: cMove, setsFlags: true, forbidden: "RDRAND is non-deterministic"}, "RDRANDW": {class: cMove, setsFlags: true, forbidden: "RDRAND is non-deterministic"},
 	"RDSEED": {class: cMove, setsFlags: true, forbidden: "RDSEED is non-deterministic"}, "RDSEEDL": {class: cMove, setsFlags: true, forbidden: "RDSEED is non-deterministic"},
 	"RDSEEDQ": {class: cMove, setsFlags: true, forbidden: "RDSEED is non-deterministic"}, "RDSEEDW": {class: cMove, setsFlags: true, forbidden: "RDSEED is non-deterministic"},
-	"RDTSC":  {class: cNone, implW: []string{"AX", "DX"}, forbidden: "RDTSC reads the time stamp counter"},
-	"RDTSCP": {class: cNone, implW: []string{"AX", "DX", "CX"}, forbidden: "RDTSCP reads the time stamp counter"},
-	"RDPMC":  {class: cNone, implR: []string{"CX"}, implW: []string{"AX", "DX"}, forbidden: "RDPMC reads a performance counter"},
-	"CPUID":  {class: cNone, implR: []string{"AX", "CX"}, implW: []string{"AX", "BX", "CX", "DX"}, forbidden: "CPUID (feature dispatch belongs in Go code)"},
-	"XGETBV": {class: cNone, implR: []string{"CX"}, implW: []string{"AX", "DX"}, forbidden: "XGETBV (feature dispatch belongs in Go code)"},
+	"RDTSC":   {class: cNone, implW: []string{"AX", "DX"}, forbidden: "RDTSC reads the time stamp counter"},
+	"RDTSCP":  {class: cNone, implW: []string{"AX", "DX", "CX"}, forbidden: "RDTSCP reads the time stamp counter"},
+	"RDPMC":   {class: cNone, implR: []string{"CX"}, implW: []string{"AX", "DX"}, forbidden: "RDPMC reads a performance counter"},
+	"CPUID":   {class: cNone, implR: []string{"AX", "CX"}, implW: []string{"AX", "BX", "CX", "DX"}, forbidden: "CPUID (feature dispatch belongs in Go code)"},
+	"XGETBV":  {class: cNone, implR: []string{"CX"}, implW: []string{"AX", "DX"}, forbidden: "XGETBV (feature dispatch belongs in Go code)"},
 	"SYSCALL": {class: cNone, forbidden: "SYSCALL"}, "INT": {class: cNone, forbidden: "INT"}, "HLT": {class: cNone, forbidden: "HLT"},
 	"UD2": {class: cNone, forbidden: "UD2"}, "XLAT": {class: cNone, implR: []string{"AX", "BX"}, implW: []string{"AX"}, forbidden: "XLAT is a table lookup indexed by AL"},
 	"BYTE": {class: cNone, forbidden: "raw opcode bytes cannot be judged"}, "WORD": {class: cNone, forbidden: "raw opcode bytes cannot be judged"},
